@@ -8,75 +8,7 @@ From PV Require Import Base.Index Np.Array Model.Sparse Model.C04Model Proofs.C0
   Proofs.C04Admissible Proofs.C04RegionGet Proofs.C04History.
 Import ListNotations.
 
-(* ------------------------------------------------------------------------------------------------ *)
-(* (1) region read: well-formedness of the result                                                     *)
-(* ------------------------------------------------------------------------------------------------ *)
-Lemma index_of_lt x l k : index_of x l = Some k -> k < length l.
-Proof.
-  revert k; induction l as [|y r IH]; intros k H; cbn in H; [discriminate|].
-  destruct (Nat.eqb x y).
-  - inversion H. cbn. lia.
-  - destruct (index_of x r) as [k'|]; [|discriminate]. inversion H. cbn. specialize (IH k' eq_refl). lia.
-Qed.
-
-Lemma renumber_inb ls : forall p j, renumber ls p = Some j -> inb (kept_shape ls) j = true.
-Proof.
-  induction ls as [|[kept l] ls IH]; intros [|x p] j H; cbn in H; try discriminate.
-  - inversion H. reflexivity.
-  - destruct (index_of x l) as [k|] eqn:Ek; [|discriminate].
-    destruct (renumber ls p) as [r|] eqn:Er; [|discriminate].
-    specialize (IH p r Er). unfold kept_shape in *. cbn [filter fst].
-    destruct kept; inversion H; subst; auto.
-    cbn [map snd inb]. rewrite IH, andb_true_r. apply Nat.ltb_lt. eapply index_of_lt; eauto.
-Qed.
-
-Section G.
-Context {V : Type} (v0 : V) (isz : V -> bool).
-
-Lemma region_sel_in ls (es : list (idx * V)) e :
-  In e (region_sel ls es) -> exists q, In (q, snd e) es /\ renumber ls q = Some (fst e).
-Proof.
-  unfold region_sel. rewrite in_flat_map. intros ([q v] & Hin & He). cbn [fst snd] in He.
-  destruct (renumber ls q) as [j|] eqn:R; [|contradiction]. destruct He as [<-|[]]. cbn. eauto.
-Qed.
-
-Lemma region_sel_nodup ls (es : list (idx * V)) :
-  drop_single ls -> NoDup (map fst es) -> NoDup (map fst (region_sel ls es)).
-Proof.
-  intros Hs. induction es as [|[q v] r IH]; intros Hn; cbn; [constructor|].
-  inversion Hn as [|? ? Hq Hn']; subst. fold (region_sel ls r).
-  destruct (renumber ls q) as [j|] eqn:R; cbn; auto.
-  constructor; auto. intros F. apply in_map_iff in F as (e & Ee & He).
-  apply region_sel_in in He as (q' & Hin & R'). rewrite Ee in R'.
-  assert (q = q') by (eapply renumber_inj; eauto). subst q'.
-  apply Hq. apply in_map_iff. exists (q, snd e). auto.
-Qed.
-
-Theorem sp_region_get_wf (S R : sparse V) es :
-  wf_sp isz S -> sp_region_get S es = Some R -> wf_sp isz R.
-Proof.
-  intros W Hg. unfold sp_region_get in Hg.
-  destruct (region_lists (sshape S) es) as [ls|] eqn:Hl; [|discriminate]. inversion Hg; subst. clear Hg.
-  apply wf_sp_of_entries. fold (region_sel ls (entries S)).
-  destruct (wf_es_entries isz S W) as [Hn He].
-  split.
-  - apply region_sel_nodup; auto. eapply region_lists_single; eauto.
-  - intros e Hin. apply region_sel_in in Hin as (q & Hin & R). split.
-    + eapply renumber_inb; eauto.
-    + apply (He (q, snd e) Hin).
-Qed.
-
-(* nothing is invented: the result stores exactly the stored entries of S that lie inside the region *)
-Theorem sp_region_get_nnz (S R : sparse V) es ls :
-  region_lists (sshape S) es = Some ls -> sp_region_get S es = Some R ->
-  length (ssubs R) = length (filter (fun e : idx * V => match renumber ls (fst e) with Some _ => true | None => false end) (entries S)).
-Proof.
-  intros Hl Hg. unfold sp_region_get in Hg. rewrite Hl in Hg. inversion Hg; subst. clear Hg.
-  unfold of_entries. cbn [ssubs]. rewrite map_length.
-  induction (entries S) as [|[q v] r IH]; cbn; auto.
-  destruct (renumber ls q); cbn; auto.
-Qed.
-End G.
+(* (1) region read: moved to Proofs/C04RegionGet.v in wave 3b (sp_region_get_wf / sp_region_get_nnz for keys that may repeat an index) *)
 
 (* ------------------------------------------------------------------------------------------------ *)
 (* (2) region writes are admissible                                                                   *)
